@@ -208,7 +208,9 @@ class AutoLink(SpanToken):
         mailto (bool): true iff the target looks like an email address, but does not have the "mailto:" prefix.
     """
     repr_attributes = ("target", "mailto")
-    pattern = re.compile(r"(?<!\\)(?:\\\\)*<([A-Za-z][A-Za-z0-9+.-]{1,31}:[^ <>]*?|[A-Za-z0-9.!#$%&'*+/=?^_`{|}~-]+@[A-Za-z0-9](?:[A-Za-z0-9-]{0,61}[A-Za-z0-9])?(?:\.[A-Za-z0-9](?:[A-Za-z0-9-]{0,61}[A-Za-z0-9])?)*)>")
+    # the token proper; escaped backslashes may stand before it
+    link_pattern = re.compile(r"<([A-Za-z][A-Za-z0-9+.-]{1,31}:[^ <>]*?|[A-Za-z0-9.!#$%&'*+/=?^_`{|}~-]+@[A-Za-z0-9](?:[A-Za-z0-9-]{0,61}[A-Za-z0-9])?(?:\.[A-Za-z0-9](?:[A-Za-z0-9-]{0,61}[A-Za-z0-9])?)*)>")
+    pattern = re.compile(r"(?<!\\)(?:\\\\)*" + link_pattern.pattern)
     parse_inner = False
 
     def __init__(self, match):
@@ -216,6 +218,11 @@ class AutoLink(SpanToken):
         self.children = (RawText(content),)
         self.target = content
         self.mailto = '@' in self.target and 'mailto' not in self.target.casefold()
+
+    @classmethod
+    def find(cls, string):
+        return [cls.link_pattern.match(string, match.start() + match.group(0).index('<'))
+                for match in cls.pattern.finditer(string)]
 
 
 class EscapeSequence(SpanToken):
